@@ -118,7 +118,57 @@ def refFromMont (M : Modulus) (x : L4) : L4 :=
   let a3 := redStep M (add4c a2 x.l3)
   condSub M a3
 
+/-- accumulate a 5-limb row into the accumulator: 4-limb carry chain, the three top contributions folded by wrapping adds -/
+def add5c (a r : L5) : L5 :=
+  let s0 := add64 a.l0 r.l0 0
+  let s1 := add64 a.l1 r.l1 s0.2
+  let s2 := add64 a.l2 r.l2 s1.2
+  let s3 := add64 a.l3 r.l3 s2.2
+  ⟨s0.1, s1.1, s2.1, s3.1, wadd (wadd s3.2 a.l4) r.l4⟩
+
+/-- Fiat `ToMontgomery` when `R² mod m` has four non-trivial limbs (scalar field): Montgomery multiplication by `B` -/
+def refToMontN (M : Modulus) (B x : L4) : L4 :=
+  let a0 := redStep M (mulRow x.l0 B.l0 B.l1 B.l2 B.l3)
+  let a1 := redStep M (add5c a0 (mulRow x.l1 B.l0 B.l1 B.l2 B.l3))
+  let a2 := redStep M (add5c a1 (mulRow x.l2 B.l0 B.l1 B.l2 B.l3))
+  let a3 := redStep M (add5c a2 (mulRow x.l3 B.l0 B.l1 B.l2 B.l3))
+  condSub M a3
+
+/-- `x * (c + 2^64)` as three limbs (base field: `R² mod p = c + 2^64`) -/
+def rowP (x c : Nat) : L5 :=
+  let p := mul64 x c
+  let s := add64 p.1 x 0
+  ⟨p.2, s.1, s.2, 0, 0⟩
+
+def add4r (a r : L5) : L5 :=
+  let s0 := add64 a.l0 r.l0 0
+  let s1 := add64 a.l1 r.l1 s0.2
+  let s2 := add64 a.l2 r.l2 s1.2
+  let s3 := add64 a.l3 0 s2.2
+  ⟨s0.1, s1.1, s2.1, s3.1, wadd s3.2 a.l4⟩
+
+/-- Fiat `ToMontgomery` for the base field -/
+def refToMontP (M : Modulus) (c : Nat) (x : L4) : L4 :=
+  let a0 := redStep M (rowP x.l0 c)
+  let a1 := redStep M (add4r a0 (rowP x.l1 c))
+  let a2 := redStep M (add4r a1 (rowP x.l2 c))
+  let a3 := redStep M (add4r a2 (rowP x.l3 c))
+  condSub M a3
+
 def R2n : L4 := ⟨9902555850136342848, 8364476168144746616, 16616019711348246470, 11342065889886772165⟩
 
 def Mp : Modulus := ⟨0xfffffffefffffc2f, 0xffffffffffffffff, 0xffffffffffffffff, 0xffffffffffffffff, 0xd838091dd2253531⟩
 def Mn : Modulus := ⟨0xbfd25e8cd0364141, 0xbaaedce6af48a03b, 0xfffffffffffffffe, 0xffffffffffffffff, 0x4b0dff665588b13f⟩
+
+/-- `Reduce` (hand-written Go, both packages): conditional subtraction of the modulus by a borrow mask;
+returns the new limbs and the final borrow (1 = the input was already below the modulus) -/
+def refReduce (M : Modulus) (x : L4) : L4 × Nat :=
+  let d0 := sub64 x.l0 M.m0 0
+  let d1 := sub64 x.l1 M.m1 d0.2
+  let d2 := sub64 x.l2 M.m2 d1.2
+  let d3 := sub64 x.l3 M.m3 d2.2
+  let mask := wneg d3.2
+  (⟨Nat.lor (Nat.land d0.1 (wnot mask)) (Nat.land x.l0 mask),
+    Nat.lor (Nat.land d1.1 (wnot mask)) (Nat.land x.l1 mask),
+    Nat.lor (Nat.land d2.1 (wnot mask)) (Nat.land x.l2 mask),
+    Nat.lor (Nat.land d3.1 (wnot mask)) (Nat.land x.l3 mask)⟩, d3.2)
